@@ -28,6 +28,8 @@ type Exec struct {
 	maxInline int
 	useGInv   bool
 	lockCheck bool
+	fieldOf   map[string][2]string
+	inFieldInv bool
 }
 
 type retSite struct {
